@@ -62,6 +62,7 @@ struct Case {
   int field;
   int path;
   bool probe = false;
+  bool default_fields = false; // probe only: do not switch the Temperature field on
 };
 
 struct CellVal {
@@ -212,7 +213,7 @@ static std::string run_case(const Case &c, Result &R, Stats &S) {
       t += fmt("  number of subgrids: [%d, %d, %d]\n", c.s[0], c.s[1], c.s[2]);
     }
     t += "DensityGridWriter:\n  prefix: snap\n  padding: 3\n";
-    if (c.path != P_HYDRO)
+    if (c.path != P_HYDRO && !c.default_fields)
       t += "DensityGridWriterFields:\n  Temperature: 1\n";
     FILE *f = fopen(pname.c_str(), "w");
     fputs(t.c_str(), f);
@@ -555,6 +556,24 @@ int main(int argc, char **argv) {
     Stats s2;
     R.set_str("probe.box_not_representable_in_6_printed_digits", run_case(c, dummy, s2) +
                                                                      fmt(" [%" PRIu64 " value mismatches]", dummy.violation_count));
+  }
+  {
+    Case c = {{4, 4, 4}, {2, 2, 2}, 0, F_RAMP, P_TASK};
+    c.probe = true;
+    c.box = 0;
+    c.default_fields = true;
+    Result dummy(A);
+    Stats s2;
+    // probe flag selects the non-round box: use the plain box here
+    Case c2 = c;
+    c2.probe = false;
+    const unsigned long before = c20::g_aborts;
+    run_case(c2, dummy, s2);
+    std::string keys;
+    for (auto &v : dummy.violations)
+      keys += v.key + "; ";
+    R.set_str("probe.non_hydro_snapshot_with_default_fields",
+              fmt("%lu aborts; ", c20::g_aborts - before) + keys);
   }
   R.evaluations = S.cells_compared;
   R.nontrivial = nontrivial;
